@@ -870,6 +870,16 @@ pub fn gen_c08(run: &mut Run, seed: u64, thorough: bool) {
                         g.rotate(&cand, &pf, true, &AuthSpec::exact(&[op]), &format!("rotate-bypass-old-{cls}"));
                     }
                 }
+                // an attempt to RE-INSTALL an earlier (non-latest) set, properly signed by the latest one: refused — a set's
+                // place in the history, and with it the end of its validity, is fixed once
+                if n >= 2 {
+                    let e = g.rng.below(n as u64 - 1) as usize;
+                    let old = g.sets[e].clone();
+                    let latest = g.sets[n - 1].clone();
+                    let pf = g.honest(&latest, &old.rotation_data_hash(&g.env));
+                    g.rotate(&old, &pf, false, &AuthSpec::None, "reinstall-earlier-set");
+                    g.run.op("gw.epoch", "q");
+                }
                 // advance history by one honest rotation (if the bypass one above did not already)
                 let k = g.rng.range(1, 3) as usize;
                 let cand = g.mk_set(k, 0, 2);
